@@ -6,7 +6,7 @@
  * made by harness CHECKs over a ghost monitor, static callees are replaced by contracts (on re-declarations after the
  * #include), libext2fs callees are the stubs below.
  *
- * Ghost view of the five block bitmaps resize2fs juggles, observed at ONE arbitrary ghost block G.b (stands for "for all
+ * Ghost view of the five block bitmaps resize2fs juggles, observed at ONE arbitrary ghost block GI.b (stands for "for all
  * blocks"); every other block is unconstrained (tests on it answer arbitrarily, marks on it are not recorded):
  *   BM_NEW      rfs->new_fs->block_map      blocks in use in the filesystem being built
  *   BM_OLD      rfs->old_fs->block_map      blocks in use before the resize
@@ -14,7 +14,7 @@
  *   BM_MOVE     rfs->move_blocks            blocks whose content must be relocated
  *   BM_META     meta_bmap (blocks_to_move)  metadata blocks of the OLD geometry
  *   BM_NEWMETA  new_meta_bmap               metadata of the new geometry (bigalloc shrink path)
- * and of the table locations of ONE arbitrary ghost group G.g in both handles.
+ * and of the table locations of ONE arbitrary ghost group GI.g in both handles.
  * A ghost clock G.clock numbers the stub events; G.t_* remember when something happened first (0 = never).
  *
  * The unit declares `struct in_s IN` with (at least) the members RSZ_IN_FIELDS (rsz_in.h) before including this header, and includes
@@ -31,22 +31,27 @@
 enum { BM_NEW, BM_OLD, BM_RESERVE, BM_MOVE, BM_META, BM_NEWMETA, BM_NR };
 enum { T_BB, T_IB, T_IT, T_NR };	/* block bitmap, inode bitmap, inode table */
 
+/* the ghost indices: chosen by the harness, never written afterwards (kept apart so that loops may havoc G as a whole) */
+static struct { unsigned long long b; unsigned int g; } GI;	/* ghost block, ghost group */
+
 static struct rsz_ghost {
-	unsigned long long b;			/* ghost block */
 	unsigned char bit[BM_NR];		/* b is a member of the set */
 	unsigned int clock;			/* event clock (starts at 1) */
 	unsigned int t_mark[BM_NR];		/* clock of the first mark of b in the set by the code under test */
 	unsigned int t_unmark[BM_NR];		/* clock of the first unmark */
 	unsigned int nmark[BM_NR];		/* mark events that hit b */
-	unsigned int g;				/* ghost group */
 	unsigned long long loc[2][T_NR];	/* table locations of group g: [0] new_fs, [1] old_fs */
 	unsigned int t_zero[T_NR];		/* clock when new_fs's location of group g was set to 0 */
 	unsigned int t_agt_first, t_agt_last;	/* first / last ext2fs_allocate_group_table call (any group) */
 	unsigned int t_agt_g;			/* last call for the ghost group */
 	unsigned int n_agt, n_agt_rsv, n_agt_map;	/* calls; with an explicit bitmap; with bmap == 0 (fs->block_map) */
 	unsigned int agt_took_b;		/* how often the allocator handed out the ghost block */
+	unsigned int agt_took_b_rsv;		/* ... when allocating from rfs->reserve_blocks */
+	unsigned int t_agt_map_last, t_agt_rsv_first;	/* last call with bmap == 0, first call with an explicit bitmap */
 	unsigned int t_agt_took_b;		/* ... and when (first) */
 	unsigned int agt_bad_bmap;		/* allocate_group_table called with an unexpected bitmap */
+	unsigned int agt_rsv_early, agt_map_late;	/* allocation from reserve_blocks before / from the block map after reserve_sparse_super2_last_group */
+	unsigned int mfm_hit_b;			/* mark_fs_metablock (replaced) calls on the ghost block */
 	unsigned int nch;			/* choice counter */
 	unsigned int n_loc2;			/* ext2fs_super_and_bgd_loc2 calls */
 	unsigned int loc2_bad;			/* ... with unexpected arguments */
@@ -59,6 +64,9 @@ static struct rsz_ghost {
 	unsigned int n_mfm;			/* mark_fs_metablock (replaced) calls */
 	unsigned int t_mfm_first;
 	unsigned int n_mtb;			/* mark_table_blocks (replaced) calls */
+#ifdef RSZ_EXTRA_GHOST
+	RSZ_EXTRA_GHOST				/* members a unit adds for its own stubs */
+#endif
 } G;
 
 static char rsz_bmobj[BM_NR];		/* the opaque bitmap handles are the addresses of these bytes */
@@ -81,6 +89,7 @@ static void rsz_ghost_init(void)
 	G.clock = 1; G.nch = 0; G.n_events = 0;
 	for (i = 0; i < BM_NR; i++) { G.t_mark[i] = 0; G.t_unmark[i] = 0; G.nmark[i] = 0; }
 	for (i = 0; i < T_NR; i++) G.t_zero[i] = 0;
+	G.agt_took_b_rsv = G.t_agt_map_last = G.t_agt_rsv_first = G.agt_rsv_early = G.agt_map_late = G.mfm_hit_b = 0;
 	G.t_agt_first = G.t_agt_last = G.t_agt_g = G.n_agt = G.n_agt_rsv = G.n_agt_map = G.agt_took_b = G.t_agt_took_b = G.agt_bad_bmap = 0;
 	G.n_loc2 = G.loc2_bad = G.n_stats = G.t_stats = 0; G.stats_delta = 0;
 	G.t_rsv_ss2 = G.n_rsv_ss2 = G.n_mfm = G.t_mfm_first = G.n_mtb = 0;
@@ -91,7 +100,7 @@ static void rsz_ghost_init(void)
 int ext2fs_test_generic_bmap(ext2fs_generic_bitmap bitmap, __u64 arg)
 {
 	int i = BMIDX(bitmap);
-	if (arg == G.b)
+	if (arg == GI.b)
 		return G.bit[i];
 	return rsz_ch() & 1;
 }
@@ -99,7 +108,7 @@ int ext2fs_mark_generic_bmap(ext2fs_generic_bitmap bitmap, __u64 arg)
 {
 	int i = BMIDX(bitmap), old;
 	unsigned int t = rsz_tick();
-	if (arg != G.b)
+	if (arg != GI.b)
 		return rsz_ch() & 1;
 	old = G.bit[i];
 	G.bit[i] = 1;
@@ -111,7 +120,7 @@ int ext2fs_unmark_generic_bmap(ext2fs_generic_bitmap bitmap, __u64 arg)
 {
 	int i = BMIDX(bitmap), old;
 	unsigned int t = rsz_tick();
-	if (arg != G.b)
+	if (arg != GI.b)
 		return rsz_ch() & 1;
 	old = G.bit[i];
 	G.bit[i] = 0;
@@ -122,7 +131,7 @@ void ext2fs_mark_block_bitmap_range2(ext2fs_block_bitmap bitmap, blk64_t block, 
 {
 	int i = BMIDX(bitmap);
 	unsigned int t = rsz_tick();
-	if (G.b >= block && G.b - block < num) {
+	if (GI.b >= block && GI.b - block < num) {
 		G.bit[i] = 1;
 		G.nmark[i]++;
 		if (!G.t_mark[i]) G.t_mark[i] = t;
@@ -132,7 +141,7 @@ void ext2fs_unmark_block_bitmap_range2(ext2fs_block_bitmap bitmap, blk64_t block
 {
 	int i = BMIDX(bitmap);
 	unsigned int t = rsz_tick();
-	if (G.b >= block && G.b - block < num) {
+	if (GI.b >= block && GI.b - block < num) {
 		G.bit[i] = 0;
 		if (!G.t_unmark[i]) G.t_unmark[i] = t;
 	}
@@ -144,14 +153,14 @@ void ext2fs_unmark_block_bitmap_range2(ext2fs_block_bitmap bitmap, blk64_t block
 static ext2_filsys rsz_new_fs, rsz_old_fs;
 static unsigned long long rsz_get_loc(ext2_filsys fs, dgrp_t group, int kind)
 {
-	if (group == G.g && (fs == rsz_new_fs || fs == rsz_old_fs))
+	if (group == GI.g && (fs == rsz_new_fs || fs == rsz_old_fs))
 		return G.loc[fs == rsz_old_fs][kind];
 	return rsz_chv();
 }
 static void rsz_set_loc(ext2_filsys fs, dgrp_t group, int kind, blk64_t blk)
 {
 	unsigned int t = rsz_tick();
-	if (group == G.g && (fs == rsz_new_fs || fs == rsz_old_fs)) {
+	if (group == GI.g && (fs == rsz_new_fs || fs == rsz_old_fs)) {
 		G.loc[fs == rsz_old_fs][kind] = blk;
 		if (fs == rsz_new_fs && blk == 0 && !G.t_zero[kind]) G.t_zero[kind] = t;
 	}
@@ -177,10 +186,11 @@ static int rsz_agt_pick(int i, int kind, unsigned int t, unsigned long long len,
 	/* returns the new location: a run of len blocks that covers the ghost block (only if free), or some run that does not */
 	unsigned long long s = rsz_chv();
 	ASSUME(s != 0 && s < (1ULL << 48) && len >= 1 && len < (1ULL << 32));
-	if (G.b >= s && G.b - s < len) {
+	if (GI.b >= s && GI.b - s < len) {
 		ASSUME(G.bit[i] == 0);		/* only free blocks are handed out */
 		G.bit[i] = 1;
 		G.agt_took_b++;
+		if (i == BM_RESERVE) G.agt_took_b_rsv++;
 		if (!G.t_agt_took_b) G.t_agt_took_b = t;
 	}
 	if (ghost_group)
@@ -190,14 +200,17 @@ static int rsz_agt_pick(int i, int kind, unsigned int t, unsigned long long len,
 errcode_t ext2fs_allocate_group_table(ext2_filsys fs, dgrp_t group, ext2fs_block_bitmap bmap)
 {
 	unsigned int t = rsz_tick();
-	int i, gg = (group == G.g);
+	int i, gg = (group == GI.g);
+	ASSUME(G.n_agt < 0xfffffff0u && G.agt_took_b < 0xfffffff0u);	/* counters do not wrap */
 	G.n_agt++;
 	if (!G.t_agt_first) G.t_agt_first = t;
 	G.t_agt_last = t;
 	if (gg) G.t_agt_g = t;
 	if (fs != rsz_new_fs) G.agt_bad_bmap++;
-	if (bmap == 0) { G.n_agt_map++; i = BM_NEW; }
-	else { G.n_agt_rsv++; i = BMIDX(bmap); if (bmap != BMH(BM_RESERVE)) G.agt_bad_bmap++; }
+	if (bmap != 0 && G.n_rsv_ss2 == 0) G.agt_rsv_early++;
+	if (bmap == 0 && G.n_rsv_ss2 != 0) G.agt_map_late++;
+	if (bmap == 0) { G.n_agt_map++; i = BM_NEW; G.t_agt_map_last = t; }
+	else { G.n_agt_rsv++; i = BM_RESERVE; if (bmap != BMH(BM_RESERVE)) G.agt_bad_bmap++; if (!G.t_agt_rsv_first) G.t_agt_rsv_first = t; }
 	if (rsz_ch() & 1)
 		return EXT2_ET_BLOCK_ALLOC_FAIL;
 	/* a table of the ghost group is (re)placed iff its location is 0; for other groups: arbitrarily */
@@ -214,10 +227,11 @@ errcode_t ext2fs_allocate_group_table(ext2_filsys fs, dgrp_t group, ext2fs_block
 /* ---- small things every unit needs ---- */
 #ifndef RSZ_NO_MISC_STUBS
 void ext2fs_free_block_bitmap(ext2fs_block_bitmap bitmap) { }
+char *gettext(const char *msgid) { return (char *)msgid; }	/* ENABLE_NLS: _("...") */
 void ext2fs_block_alloc_stats2(ext2_filsys fs, blk64_t blk, int inuse)
 {
 	unsigned int t = rsz_tick();
-	if (blk == G.b) {
+	if (blk == GI.b) {
 		G.n_stats++;
 		G.stats_delta += inuse;
 		if (!G.t_stats) G.t_stats = t;
